@@ -91,6 +91,12 @@ static int readit(const char* path){
 int main(int argc, char** argv){
 	if(argc>=3 && !strcmp(argv[1],"cfitsio")) return probe(argv[2]);
 	if(argc>=3 && !strcmp(argv[1],"read")) return readit(argv[2]);
+	if(argc>=4 && !strcmp(argv[1],"rewritemem")){   // read with the library, write through the memory back end, read that back from memory, dump the buffer
+		try{ photospline::splinetable<> t(argv[2]); auto buf=t.write_fits_mem(); photospline::splinetable<> u; u.read_fits_mem(buf.first,buf.second);
+			FILE* f=fopen(argv[3],"wb"); fwrite(buf.first,1,buf.second,f); fclose(f); free(buf.first);
+			printf("{\"rewritten\": true, \"equal\": %s}\n", (t==u)?"true":"false"); }
+		catch(std::exception& ex){ printf("{\"rewritten\": false, \"what\": "); jstr(ex.what()); printf("}\n"); }
+		return 0; }
 	if(argc>=4 && !strcmp(argv[1],"rewrite")){   // read with the library, write with the library
 		try{ photospline::splinetable<> t(argv[2]); t.write_fits(argv[3]); photospline::splinetable<> u(argv[3]);
 			printf("{\"rewritten\": true, \"equal\": %s}\n", (t==u)?"true":"false"); }
